@@ -85,7 +85,7 @@ _WARN_RE = re.compile(r"^(?P<src>.*?):(?P<line>\d+)?:? ?\((?P<level>\w+)/(?P<n>\
 def split_warnings(text):
     """Split a docutils warning stream into records {src, line, level, msg} (continuation lines appended)."""
     out = []
-    for ln in text.splitlines():
+    for ln in text.split("\n"):  # (not splitlines(): U+2028, form feeds ... inside a message are characters of that message)
         m = _WARN_RE.match(ln)
         if m:
             d = m.groupdict()
@@ -193,7 +193,7 @@ class SphinxBuild:
     def stream_records(self, text=None):
         """What the USER sees: the warning stream parsed into records (Sphinx' handler-level filters - suppress_warnings, once - have been applied)."""
         out = []
-        for raw in (self.warnings if text is None else text).splitlines():
+        for raw in (self.warnings if text is None else text).split("\n"):
             l = re.sub(r"\x1b\[[0-9;]*m", "", raw)
             m = self._WLINE.match(l)
             if not m:
